@@ -20,8 +20,12 @@ func (pass *Unspec) Process(schemas []*ast.Schema) ([]*ast.Schema, error) {
 	// package → original name → new name, for the objects that are renamed
 	renamed := make(map[string]map[string]string)
 
+	// the envelope is dropped, not what the schemas themselves use: an object
+	// called "metadata" that is referred to stays
+	referenced := pass.referencedObjects(schemas)
+
 	for _, schema := range schemas {
-		names := pass.renameSpec(schema)
+		names := pass.renameSpec(schema, referenced)
 		if len(names) == 0 {
 			continue
 		}
@@ -47,9 +51,37 @@ func (pass *Unspec) Process(schemas []*ast.Schema) ([]*ast.Schema, error) {
 	return schemas, nil
 }
 
+// referencedObjects gives the objects (`pkg.Name`) that a type of the schemas refers to.
+func (pass *Unspec) referencedObjects(schemas []*ast.Schema) map[string]struct{} {
+	referenced := make(map[string]struct{})
+
+	collector := &Visitor{
+		OnRef: func(_ *Visitor, _ *ast.Schema, def ast.Type) (ast.Type, error) {
+			referenced[def.AsRef().String()] = struct{}{}
+			return def, nil
+		},
+		OnConstantRef: func(_ *Visitor, _ *ast.Schema, def ast.Type) (ast.Type, error) {
+			constantRef := def.AsConstantRef()
+			referenced[ast.RefType{ReferredPkg: constantRef.ReferredPkg, ReferredType: constantRef.ReferredType}.String()] = struct{}{}
+			return def, nil
+		},
+	}
+
+	for _, schema := range schemas {
+		// the callbacks never fail, and change nothing
+		_, _ = collector.VisitSchema(schema)
+	}
+
+	return referenced
+}
+
 // renameSpec renames the "spec" object of a schema and returns the names it changed.
-func (pass *Unspec) renameSpec(schema *ast.Schema) map[string]string {
+func (pass *Unspec) renameSpec(schema *ast.Schema, referenced map[string]struct{}) map[string]string {
 	schema.Objects = schema.Objects.Filter(func(_ string, object ast.Object) bool {
+		if _, inUse := referenced[object.SelfRef.String()]; inUse {
+			return true
+		}
+
 		return !strings.EqualFold(object.Name, "metadata")
 	})
 
